@@ -156,7 +156,8 @@ def judge_vendor(vendor, layout, sample):
             k += 1
             cvrs.append(CVR(id=f"phantom-1-{k}", votes={"c1": {}}, phantom=True))
         elif vendor == "dominion":
-            cvrs.append(CVR(id=f"{7 + i % 2}-1-{i + 1}", votes={"c1": {"A": True}}, card_in_batch=i + 1))
+            # card_in_batch is the 0-based lexicographic position ONEAudit assigns; it is not the record number of the id
+            cvrs.append(CVR(id=f"{7 + i % 2}-1-{i + 1}", votes={"c1": {"A": True}}, card_in_batch=i // 2))
         else:
             cvrs.append(CVR(id=f"b{1 + i % 2}_{i + 1}", votes={"c1": {"A": True}}))
     out = []
@@ -172,6 +173,11 @@ def judge_vendor(vendor, layout, sample):
     want = [cvrs[s].id for s in sample if cvrs[s].phantom]
     if [m.id for m in mph] != want or any(not m.phantom for m in mph):
         out.append((f"C08|{vendor}|phantom-mvrs", f"phantom manual records {[m.id for m in mph]} but the sampled phantoms are {want}"))
+    key = 5 if vendor == "dominion" else -1
+    got_ids = sorted(str(c[key]) for c in cards)
+    want_ids = sorted((cvrs[s].id if (vendor == "dominion" or not cvrs[s].phantom) else cvrs[s].id) for s in sample)
+    if got_ids != want_ids:
+        out.append((f"C08|{vendor}|card-identifiers", f"cards looked up {got_ids}, sampled CVR identifiers {want_ids}"))
     for i, s in enumerate(sample):
         cid = cvrs[s].id
         if cid not in order or order[cid]["selection_order"] != i:
